@@ -299,26 +299,26 @@ func (c *Ctx) Finish(root string, findings []Finding, seed int64, started time.T
 		"seed":        seed,
 		"level":       "other",
 		"coverage": map[string]interface{}{
-			"explanation": "static analysis of /repo's current source (go/packages type-check + go/ssa); each obligation is one rule instance (rule + function + construct) decided over all CFG paths / call sites / abstract values of the named construct; nothing is executed. A violated or undecided obligation, an unresolved anchor, a rule matching fewer constructs than confirmed by hand, a failed self-test fixture or an analyser panic fails the check.",
-			"obligations":          nObs,
-			"discharged":           discharged,
-			"evaluations":          len(c.Obs),
-			"distinct_nontrivial":  len(distinct),
-			"rule":                 "one evaluation per obligation; distinct = distinct (rule, function, construct) keys that matched real code of /repo on this run (engine bookkeeping obligations excluded)",
-			"samples":              samples,
-			"rules":                rules,
-			"functions_analysed":   fnames,
-			"packages_loaded":      nPk,
-			"root_packages":        nRoot,
-			"fixtures":             c.Fixtures,
-			"notes":                c.Notes,
-			"known_findings_hit":   len(knownHit),
-			"load_s":               lt,
-			"ssa_s":                st,
-			"exhaustive":           false,
-			"inlining_depth":       c.Depth,
-			"checker_cmd":          fmt.Sprintf("/verif/bin/kgv check -prop %s -tier %s", c.Prop, c.Tier),
-			"trusted_base":         []string{"go/types", "golang.org/x/tools/go/ssa v0.29.0", "kgv rule tables"},
+			"explanation":         "static analysis of /repo's current source (go/packages type-check + go/ssa); each obligation is one rule instance (rule + function + construct) decided over all CFG paths / call sites / abstract values of the named construct; nothing is executed. A violated or undecided obligation, an unresolved anchor, a rule matching fewer constructs than confirmed by hand, a failed self-test fixture or an analyser panic fails the check.",
+			"obligations":         nObs,
+			"discharged":          discharged,
+			"evaluations":         len(c.Obs),
+			"distinct_nontrivial": len(distinct),
+			"rule":                "one evaluation per obligation; distinct = distinct (rule, function, construct) keys that matched real code of /repo on this run (engine bookkeeping obligations excluded)",
+			"samples":             samples,
+			"rules":               rules,
+			"functions_analysed":  fnames,
+			"packages_loaded":     nPk,
+			"root_packages":       nRoot,
+			"fixtures":            c.Fixtures,
+			"notes":               c.Notes,
+			"known_findings_hit":  len(knownHit),
+			"load_s":              lt,
+			"ssa_s":               st,
+			"exhaustive":          false,
+			"inlining_depth":      c.Depth,
+			"checker_cmd":         fmt.Sprintf("/verif/bin/kgv check -prop %s -tier %s", c.Prop, c.Tier),
+			"trusted_base":        []string{"go/types", "golang.org/x/tools/go/ssa v0.29.0", "kgv rule tables"},
 		},
 		"assumptions": []string{
 			"go/types and go/ssa (x/tools v0.29.0) lower the source faithfully",
